@@ -2,7 +2,7 @@
 //! against, writes results. Only `Model::read_slice` is used (available without `std`).
 //!
 //! request : u32 n | model bytes (u32 len + bytes) | u8 predict_tags | u32 n_texts | texts (u32 len + utf8)
-//! response: u32 n | per text: u8 status (0 ok, 1 error) | scores (u32 n + i32*) | labels (u32 n + u8*)
+//! response: u32 n | twice (original predictor, then the predictor after serialize/deserialize) per text: u8 status (0 ok, 1 error) | scores (u32 n + i32*) | labels (u32 n + u8*)
 //!           | u8 has_tags | [u32 n_tags | tags (u32 n + (u8 present + str)*) | cands (tokens -> cats -> (str, i32))]
 
 use std::io::{Read, Write};
@@ -50,7 +50,7 @@ fn handle(req: &[u8]) -> Vec<u8> {
     let mut predictor = match predictor {
         Ok(p) => p,
         Err(e) => {
-            for _ in 0..n_texts {
+            for _ in 0..2 * n_texts {
                 out.push(1u8);
                 wr_str(&mut out, &e);
             }
@@ -61,22 +61,37 @@ fn handle(req: &[u8]) -> Vec<u8> {
     if predict_tags {
         predictor.store_tag_scores(true);
     }
-    for t in texts {
+    // second variant: the same predictor after a serialise/deserialise round trip in THIS build
+    let bytes = predictor.serialize_to_vec().expect("serialize_to_vec");
+    #[allow(unused_mut)]
+    let (mut reloaded, _) = unsafe { Predictor::deserialize_from_slice_unchecked(&bytes) }.expect("deserialize");
+    #[cfg(feature = "tag-prediction")]
+    if predict_tags {
+        reloaded.store_tag_scores(true);
+    }
+    run_texts(&predictor, &texts, predict_tags, &mut out);
+    run_texts(&reloaded, &texts, predict_tags, &mut out);
+    out
+}
+
+#[allow(unused_variables)]
+fn run_texts(predictor: &Predictor, texts: &[String], predict_tags: bool, out: &mut Vec<u8>) {
+    for t in texts.iter().cloned() {
         let mut s = match Sentence::from_raw(t) {
             Ok(s) => s,
             Err(e) => {
                 out.push(1u8);
-                wr_str(&mut out, &format!("{e}"));
+                wr_str(out, &format!("{e}"));
                 continue;
             }
         };
         predictor.predict(&mut s);
         out.push(0u8);
-        wr_u32(&mut out, s.boundary_scores().len() as u32);
+        wr_u32(out, s.boundary_scores().len() as u32);
         for &sc in s.boundary_scores() {
             out.extend_from_slice(&sc.to_le_bytes());
         }
-        wr_u32(&mut out, s.boundaries().len() as u32);
+        wr_u32(out, s.boundaries().len() as u32);
         for &b in s.boundaries() {
             out.push(match b {
                 CharacterBoundary::NotWordBoundary => 0,
@@ -88,26 +103,26 @@ fn handle(req: &[u8]) -> Vec<u8> {
         if predict_tags {
             s.fill_tags();
             out.push(1u8);
-            wr_u32(&mut out, s.n_tags() as u32);
-            wr_u32(&mut out, s.tags().len() as u32);
+            wr_u32(out, s.n_tags() as u32);
+            wr_u32(out, s.tags().len() as u32);
             for t in s.tags() {
                 match t {
                     Some(t) => {
                         out.push(1);
-                        wr_str(&mut out, t);
+                        wr_str(out, t);
                     }
                     None => out.push(0),
                 }
             }
             let toks: Vec<_> = s.iter_tokens().collect();
-            wr_u32(&mut out, toks.len() as u32);
+            wr_u32(out, toks.len() as u32);
             for tok in toks {
                 let cands = tok.tag_candidates();
-                wr_u32(&mut out, cands.len() as u32);
+                wr_u32(out, cands.len() as u32);
                 for c in cands {
-                    wr_u32(&mut out, c.len() as u32);
+                    wr_u32(out, c.len() as u32);
                     for (name, score) in c {
-                        wr_str(&mut out, name);
+                        wr_str(out, name);
                         out.extend_from_slice(&score.to_le_bytes());
                     }
                 }
@@ -116,7 +131,6 @@ fn handle(req: &[u8]) -> Vec<u8> {
         }
         out.push(0u8);
     }
-    out
 }
 
 fn main() {
